@@ -4,13 +4,17 @@
 //!   h_codec replay    --cases F --out F --tmp DIR [--seed N] [--thorough] [--threads N]
 //!   h_codec handshake --cases F --out F
 //!   h_codec handover  --cases F --out F                       (handshake -> codec on one socket)
+//!   h_codec peer      --cases F --out F                       (a real Peer facing a raw peer)
 //!   h_codec record    --out F --tmp DIR --seed N --seqs N       (direction B, conn::listen)
-//!   h_codec consts                                              (wire constants of the build)
+//!   h_codec consts    [--chain mainnet|testnet]                 (wire constants of the build)
+//!   (replay also takes --chain: the process then runs as a node of that network)
 mod alloc_track;
 mod frames;
 mod handover;
 mod handshake;
 mod listenrec;
+mod objects;
+mod peer;
 mod run;
 
 use grin_core::global;
@@ -21,15 +25,22 @@ static GLOBAL: alloc_track::Tracking = alloc_track::Tracking;
 
 fn main() {
 	quiet_panics();
-	// one chain type for every thread (codec limits and header validation depend on it)
-	global::init_global_chain_type(global::ChainTypes::AutomatedTesting);
 	let a: Vec<String> = std::env::args().skip(1).collect();
 	let args = Args::parse(&a);
+	// one chain type for every thread (network magic, codec limits and header validation depend on it)
+	global::init_global_chain_type(match args.get("chain") {
+		Some("mainnet") => global::ChainTypes::Mainnet,
+		Some("testnet") => global::ChainTypes::Testnet,
+		_ => global::ChainTypes::AutomatedTesting,
+	});
+	// NRD kernels are part of the built transactions (their reader consults this flag)
+	global::init_global_nrd_enabled(true);
 	let rc = match args.pos.get(0).map(|s| s.as_str()) {
 		Some("replay") => run::replay(&args),
 		Some("handshake") => handshake::run(&args),
 		Some("handover") => handover::run(&args),
 		Some("record") => listenrec::record(&args),
+		Some("peer") => peer::run(&args),
 		Some("consts") => frames::consts(),
 		_ => {
 			eprintln!("h_codec replay|handshake|record|consts");
